@@ -90,6 +90,7 @@ def judge_safety(chk, pid, case, toks, im):
         return False, None
     seen = set()
     for i, o in enumerate(outs):
+        o = o.split("@")[0]
         if o.startswith("GOT:"):
             _, h, e = o.split(":")
             h, e = int(h, 16), int(e, 16)
@@ -105,6 +106,24 @@ def judge_safety(chk, pid, case, toks, im):
                 chk.violation(why, dict(case=case, impl=short(im)))
                 return False, p
     return True, p
+
+
+def completion_late(im, mo):
+    """both observations carry, per future, the index of the event after which it was first seen completed (GOT:..@k / ERR@k).
+    Returns a description if some future completed later in the implementation than the model says it can (e.g. the reader
+    was held up behind a send that is blocked in its write), else None."""
+    pi, pm = parse_cl(im), parse_cl(mo)
+    if pi is None or pm is None or len(pi[0]) != len(pm[0]):
+        return None
+    for k, (a, b) in enumerate(zip(pi[0], pm[0])):
+        if "@" not in b:
+            continue
+        kb = int(b.split("@")[1])
+        if a == "PENDING":
+            return f"future {k} is still pending at the end of the run, its outcome ({b.split('@')[0]}) was determined after event {kb}"
+        if "@" in a and a.split("@")[0] == b.split("@")[0] and int(a.split("@")[1]) > kb:
+            return f"future {k} completed after event {a.split('@')[1]}, its outcome was determined after event {kb}"
+    return None
 
 
 def check_C11(chk, tier, seed):
@@ -171,10 +190,14 @@ def check_C11(chk, tier, seed):
         ok, p = judge_safety(chk, "C11", c, toks, im)
         if ok and good:
             outs, reader = p
+            late = completion_late(im, mo)
             if any(not o.startswith("GOT:") for o in outs) or reader != "alive":
                 ok = False
                 chk.violation("with distinct hop-by-hop ids and a peer that answers each request once (after at least one octet of it was written) a response "
                               "future did not complete with its answer", dict(case=c, impl=short(im)))
+            elif late:
+                ok = False
+                chk.violation("a response future completed later than its answer was available to the client: " + late, dict(case=c, impl=short(im), model=short(mo)))
         if ok and im != mo:
             chk.corr_break("client observation differs from the model", dict(case=c, impl=short(im), model=short(mo)))
         if i % max(1, len(cases) // 6) == 0:
@@ -267,6 +290,8 @@ def check_C12(chk, tier, seed):
         if ok:
             outs, reader = p
             has_bad = any(x.startswith("B ") for x in toks)
+            late = completion_late(im, mo)
+            outs = [o.split("@")[0] for o in outs]
             if reader == "stopped" and "PENDING" in outs:
                 ok = False
                 chk.violation("a response future is still pending although the connection's reader has stopped (it can never complete)",
@@ -285,6 +310,10 @@ def check_C12(chk, tier, seed):
                             ok = False
                             chk.violation("a response future is pending although its answer was sent or its waiter was superseded", dict(case=c, impl=short(im)))
                             break
+            if ok and late:
+                ok = False
+                chk.violation("a response future completed later than its outcome was determined (answer delivered / reader stopped): " + late,
+                              dict(case=c, impl=short(im), model=short(mo)))
             if kind == "cut" and ok:
                 chk.count("answers-delivered-before-cut:%d" % sum(1 for o in outs if o.startswith("GOT")))
         if ok and im != mo:
